@@ -162,6 +162,7 @@ void MemoryLeakOutputStringBuffer::addNoMemoryLeaksMessage()
 
 void MemoryLeakOutputStringBuffer::startMemoryLeakReporting()
 {
+    outputBuffer_.clear();
     giveWarningOnUsingMalloc_ = false;
     total_leaks_ = 0;
 
